@@ -70,6 +70,10 @@ CLAIMED = {
    text="RCON: WritePacket bytes equal the little-endian reference layout for id, type full int32 and payloads of 0..4 (quick) / 0..8 arbitrary bytes, ReadPacket returns the triple and consumes exactly one frame of two; declared length fully symbolic: below 10 or above 4096 rejected for every int32, accepted at 10, 11, 4095, 4096; login through the real DialRCON (net.Dial and rand stubbed) against the real AcceptLogin over an in-memory duplex with symbolic passwords of length 0..3: success iff equal; Cmd/AcceptCmd/RespCmd/Resp with arbitrary response (id,type): accepted iff id matches and type is 0.",
    note="encoding/binary.Read/Write replaced by an exact type-walk model with io.ReadFull semantics; native replay of login uses a loopback TCP listener.",
    ref="6 C16"),
+ "C17": dict(
+   text="Partial - the NBT half only: components generated from a bounded grammar (text of 0..2 arbitrary bytes, none or one of the five style flags at the top level and two arbitrary flags below, colour, font, insertion, click event, hover event with a text value, one nested extra, or a translation with two arguments of component and string kind) are written with Message.WriteTo; the bytes are a single well-formed network-format compound by the independent NBT reference with nothing left over, the byte count is exact, and Message.ReadFrom yields an equal component consuming exactly those bytes; a bare string and a list are accepted as components; the chat-type header (id full int32, sender, optional target) round-trips with and without a target with exact counts. Through the reflect shim, natively replayed.",
+   note="NOT covered: the JSON form (encoding/json), JSON/NBT equivalence, rendering to plain/ANSI text (regexp, fmt, translation table) - these cannot be encoded by the engine (DESIGN 7); depth 2 only; the chat package initialiser (regexp, language table) is not executed.",
+   ref="7 C17 (partial)"),
  "C18": dict(
    text="NameToUUID: MD5 digest arbitrary (stub returns unconstrained bytes tied to the hashed byte sequence), result == digest of exactly \"OfflinePlayer:\"+name with version 3 / variant bits, names of 0..4 arbitrary bytes. authDigest, both copies (bot, server/auth, in-package): for every 20-byte SHA-1 digest (quick: at most 4 leading 00/ff bytes and 3 trailing zero bytes; thorough: all non-zero digests) the string equals an independent signed-hex rendering (subtract-with-borrow two's complement, nibble hex, zero trim), and the hashed bytes are serverID++secret++key in order. VerifySignature: accepted iff the (stubbed, arbitrary) RSA verification succeeded.",
    note="MD5/SHA-1/SHA-256/RSA/x509 are stubs (trusted stdlib); all-zero digest excluded; native replay of digest counterexamples is a bounded search over 2^19 inputs; PEM framing of the hashed key not checked.",
@@ -77,7 +81,6 @@ CLAIMED = {
 }
 
 NA = {
- "C17": "encoding/json, regexp, fmt with run-time formats and the reflective NBT codec on a 20-field struct cannot be encoded faithfully (DESIGN 7)",
  "C19": "goroutine-based state machines over sockets; the symbolic engine is single-threaded (DESIGN 7)",
  "C20": "quantifies over thread interleavings and data races; not encodable in a single-threaded symbolic executor and not replayable (DESIGN 7)",
 }
